@@ -13,13 +13,21 @@ import (
 )
 
 type Place struct {
-	loc *Loc
-	val Val
+	loc   *Loc
+	val   Val
+	guard string
 }
 
 func (fx *Fx) get(st *State, p Place) Val {
 	if p.loc != nil {
-		return fx.load(st, p.loc)
+		v := fx.load(st, p.loc)
+		if p.guard != "" {
+			v.Guard = p.guard
+		}
+		return v
+	}
+	if p.guard != "" {
+		p.val.Guard = p.guard
 	}
 	return p.val
 }
@@ -296,8 +304,12 @@ func (fx *Fx) walkFields(st *State, p Place, t types.Type, path []int, what stri
 			panic(unsupported(fmt.Sprintf("field path through %s", curT)))
 		}
 		f := stt.Field(idx)
+		guard := ""
+		if !spec && fx.inSpec == 0 && cur.loc != nil {
+			guard = fx.guardRead(st, cur.loc, curT, f.Name())
+		}
 		if cur.loc != nil {
-			cur = Place{loc: &Loc{kind: locField, base: cur.loc, field: f.Name(), T: f.Type()}}
+			cur = Place{loc: &Loc{kind: locField, base: cur.loc, field: f.Name(), T: f.Type()}, guard: guard}
 		} else {
 			cur = Place{val: fx.fieldOf(st, cur.val, f.Name(), f.Type())}
 		}
@@ -366,6 +378,15 @@ func (fx *Fx) evalSelector(st *State, x *ast.SelectorExpr, spec bool) Place {
 }
 
 func (fx *Fx) evalIndex(st *State, x *ast.IndexExpr, spec bool) Place {
+	if spec {
+		bv := fx.eval(st, x.X, spec)
+		if bv.T != nil {
+			if m, isMap := bv.T.Underlying().(*types.Map); isMap {
+				k := fx.eval(st, x.Index, spec)
+				return Place{val: fx.mapGet(st, bv, m, k)}
+			}
+		}
+	}
 	if !spec {
 		if tv, ok := fx.pkg.info.Types[x.X]; ok {
 			if _, isSig := tv.Type.(*types.Signature); isSig {
@@ -374,7 +395,7 @@ func (fx *Fx) evalIndex(st *State, x *ast.IndexExpr, spec bool) Place {
 			if m, isMap := tv.Type.Underlying().(*types.Map); isMap {
 				mv := fx.eval(st, x.X, spec)
 				k := fx.eval(st, x.Index, spec)
-				return Place{val: fx.mapGet(st, mv, m, k)}
+				return Place{val: fx.mapGet(st, mv, m, k), guard: mv.Guard}
 			}
 		}
 	}
@@ -529,10 +550,14 @@ func (fx *Fx) evalUnary(st *State, x *ast.UnaryExpr, spec bool) Val {
 // promoteLocal turns a local variable whose address is taken into a heap cell.
 func (fx *Fx) promoteLocal(st *State, l *Loc) Val {
 	cur := st.env[l.obj]
+	key := "local_" + typeKey(l.obj.Type())
 	if cur.Root == "@local" {
-		return Val{T: types.NewPointer(l.T), S: SRef, X: cur.X}
+		return Val{T: types.NewPointer(l.obj.Type()), S: SRef, X: cur.X, Root: key, PT: l.obj.Type()}
 	}
-	panic(unsupported("address of local variable " + l.obj.Name()))
+	r := fx.alloc(st, "local_"+l.obj.Name())
+	fx.store(st, &Loc{kind: locCell, key: key, ref: r, T: l.obj.Type()}, cur)
+	st.env[l.obj] = Val{T: l.obj.Type(), S: SRef, X: r, Root: "@local"}
+	return Val{T: types.NewPointer(l.obj.Type()), S: SRef, X: r, Root: key, PT: l.obj.Type()}
 }
 
 func (fx *Fx) evalBinary(st *State, x *ast.BinaryExpr, spec bool) Val {
@@ -578,6 +603,12 @@ func (fx *Fx) binop(st *State, op token.Token, a, b Val, text string, spec bool)
 	case token.EQL, token.NEQ:
 		var eq string
 		switch {
+		case a.X == "nil" && (b.S == SStr || strings.HasPrefix(b.S, "Seq_")):
+			fx.assumed["a nil slice is modelled as the empty sequence"] = true
+			eq = app("=", fx.seqLen(b), "0")
+		case b.X == "nil" && (a.S == SStr || strings.HasPrefix(a.S, "Seq_")):
+			fx.assumed["a nil slice is modelled as the empty sequence"] = true
+			eq = app("=", fx.seqLen(a), "0")
 		case a.S == SStr && b.Lit != nil:
 			eq = eqLit(a.X, *b.Lit)
 		case a.S == SStr && a.Lit != nil:
